@@ -17,6 +17,8 @@ Notation boundR := (@bound R).
 
 (* ================================================================== the kernel *)
 
+Fixpoint Rsum0 (l : list R) : R := match l with [] => 0 | a :: r => a + Rsum0 r end.
+
 Definition scR (x : valueR) : R := match x with a :: _ => a | [] => 0 end.
 Definition cR (x : valueR) (k : nat) : R := nth k x 0.
 
@@ -27,6 +29,9 @@ Definition mdiff (v : varR) (x c : R) : R :=
 (* squared distance of one variable: scalar (nearest image), Euclidean for a 3-vector, for a unit vector the
    squared angle as implemented (arc cosine of the inner product clamped to [-1,1]), for a quaternion the squared
    angle omega or pi - omega, whichever is smaller (q and -q are the same rotation), as implemented *)
+(* Euclidean squared distance of two vectors of n entries *)
+Definition SqN (n : nat) (x c : valueR) : R := Rsum0 (map (fun k => (cR x k - cR c k) * (cR x k - cR c k)) (seq 0 n)).
+
 Definition D (v : varR) (x c : valueR) : R :=
   match v_kind v with
   | KScalar => mdiff v (scR x) (scR c) * mdiff v (scR x) (scR c)
@@ -34,6 +39,7 @@ Definition D (v : varR) (x c : valueR) : R :=
              + (cR c 2 - cR x 2) * (cR c 2 - cR x 2)
   | KUnit3 => vdist2 Rops v x c
   | KQuat => vdist2 Rops v x c
+  | KVecN n => SqN n x c
   end.
 
 (* its gradient with respect to x, one entry per component (for the unit vector: as implemented) *)
@@ -43,9 +49,10 @@ Definition Dgrad (v : varR) (x c : valueR) : valueR :=
   | KVec3 => [2 * (cR x 0 - cR c 0); 2 * (cR x 1 - cR c 1); 2 * (cR x 2 - cR c 2)]
   | KUnit3 => vlgrad Rops v x c
   | KQuat => vlgrad Rops v x c
+  | KVecN n => map (fun k => 2 * (cR x k - cR c k)) (seq 0 n)
   end.
 
-Definition dim (v : varR) : nat := match v_kind v with KScalar => 1 | KQuat => 4 | _ => 3 end.
+Definition dim (v : varR) : nat := match v_kind v with KScalar => 1 | KQuat => 4 | KVecN n => n | _ => 3 end.
 
 (* exponent of a hill centred at c with widths sg, seen from x:  sum_i D_i(x_i, c_i) / sigma_i^2 *)
 Fixpoint Qexp (vs : list varR) (sg : list R) (x c : list valueR) : R :=
@@ -189,6 +196,11 @@ Proof.
   - unfold vdist2. rewrite E. reflexivity.
   - reflexivity.
   - reflexivity.
+  - unfold vdist2. rewrite E. unfold sqsumN, SqN.
+    assert (G : forall l a, fold_left (fun acc k => nadd Rops acc (nmul Rops (nsub Rops (comp Rops x k) (comp Rops c k)) (nsub Rops (comp Rops x k) (comp Rops c k)))) l a
+                          = a + Rsum0 (map (fun k => (cR x k - cR c k) * (cR x k - cR c k)) l)).
+    { induction l as [|k l IH]; intros a; cbn [fold_left map Rsum0]; [lra|]. rewrite IH. unfold comp, cR. cbn [nadd nmul nsub n0 Rops]. change (n0 Rops) with 0. ring. }
+    rewrite G. cbn. lra.
 Qed.
 
 Lemma vlgrad_R v x c : vlgrad Rops v x c = Dgrad v x c.
@@ -198,6 +210,7 @@ Proof.
   - unfold vlgrad. rewrite E. reflexivity.
   - reflexivity.
   - reflexivity.
+  - unfold vlgrad. rewrite E. unfold lgradN. apply map_ext. intros k. cbn. unfold comp, cR. reflexivity.
 Qed.
 
 Lemma D_nonneg v x c : 0 <= D v x c.
@@ -209,6 +222,8 @@ Proof.
   - unfold vdist2. rewrite E. apply Rle_0_sqr.
   - unfold vdist2. rewrite E. cbv zeta.
     destruct (nltb Rops (n0 Rops) (dot4 Rops x c)); apply Rle_0_sqr.
+  - unfold SqN. induction (seq 0 n) as [|k l IH]; cbn [map Rsum0]; [lra|].
+    pose proof (Rle_0_sqr (cR x k - cR c k)). unfold Rsqr in *. lra.
 Qed.
 
 Lemma sqdev_R vs : forall sg x c a, sqdev Rops vs sg x c a = a + Qexp vs sg x c.
@@ -288,10 +303,11 @@ Proof.
   - destruct (nltb Rops (n0 Rops) (dot3 Rops x c) &&
               nltb Rops (nsub Rops (n1 Rops) (nmul Rops (dot3 Rops x c) (dot3 Rops x c))) (tiny28 Rops)); reflexivity.
   - cbv zeta. destruct (nltb Rops (nabs Rops (nsin Rops (nacos Rops (clamp1 Rops (dot4 Rops x c))))) (tiny14 Rops)); reflexivity.
+  - unfold lgradN. rewrite map_length, seq_length. reflexivity.
 Qed.
 
 Lemma vzero_length (v : varR) : length (vzero Rops v) = dim v.
-Proof. unfold vzero, dim. destruct (v_kind v); reflexivity. Qed.
+Proof. unfold vzero, dim. destruct (v_kind v); try reflexivity. apply repeat_length. Qed.
 
 Lemma fterm_length vs sg x c wk k : (length (fterm Rops vs sg x c wk k) <= length (fzero Rops vs k))%nat.
 Proof.
